@@ -178,7 +178,7 @@ SPEC_BUILTINS = {
 
 
 # ------------------------------------------------------------------ count axioms (Venn-region encoding)
-def count_axioms(st: State, quantified: bool = False, max_conds: int = 7):
+def count_axioms(st: State, quantified: bool = False, max_conds: int = 16):
     """Facts relating the count terms of a path: for the conditions c_1..c_k counted over the same index
     range, every feasible Boolean combination (atom) gets a non-negative cardinality; the atoms partition the
     range; each count is the sum of its atoms; a non-empty atom has a witness index; explicit index terms
@@ -217,7 +217,7 @@ def count_axioms(st: State, quantified: bool = False, max_conds: int = 7):
             a = tuple(bool(z3.is_true(m.eval(b, model_completion=True))) for b in bs)
             atoms.append(a)
             s.add(z3.Or(*[b != z3.BoolVal(v) for b, v in zip(bs, a)]))
-            if len(atoms) > 64:
+            if len(atoms) > 256:
                 atoms = None
                 break
         if atoms is None:
